@@ -4,12 +4,8 @@ pub open spec fn explicit_files(args: &Args) -> Seq<IgnoreFile> { args.filtering
 pub open spec fn vcs_ok(ig: IgnoreFile, vcs: Seq<ProjectType>) -> bool {
     match ig.applies_to { Some(pt) => if doc_is_vcs(pt) { vcs.contains(pt) } else { true }, None => true }
 }
-pub open spec fn doc_is_vcs(t: ProjectType) -> bool {
-    match t {
-        ProjectType::Bazaar | ProjectType::Darcs | ProjectType::Fossil | ProjectType::Git | ProjectType::Mercurial | ProjectType::Pijul | ProjectType::Subversion => true,
-        _ => false,
-    }
-}
+// ProjectType::is_vcs, whatever its table is (the table is C20's business: unit origins); here it only selects which global files a VCS in use keeps
+pub uninterp spec fn doc_is_vcs(t: ProjectType) -> bool;
 // "Those flags remove exactly the discovered or built-in ignore sources they name and no others":
 //   --no-project-ignore: discovered files that apply inside the project origin; --no-global-ignore: discovered files without a directory
 //   (global/user files); --no-vcs-ignore: discovered files that belong to a VCS
